@@ -2,7 +2,7 @@
    Model/TestAndSet.v: cells (one per share number on a common placement) holding version
    ids, writers that survey and then send guarded writes, any interleaving of events. *)
 From Coq Require Import List NArith Bool.
-From Verif Require Import Model.TestAndSet Proofs.TestAndSet Proofs.TestAndSetTrace.
+From Verif Require Import Model.TestAndSet Proofs.TestAndSet Proofs.TestAndSetTrace Proofs.TestAndSetRace.
 Import ListNotations.
 Local Open Scope N_scope.
 
@@ -96,3 +96,32 @@ Proof. vm_compute. repeat split. Qed.
 Example ex_trace_single_survey :
   single_survey 6 2 [Survey 0; Survey 1; Write 0 0; Write 1 1; Write 0 1; Write 1 0; Write 0 2; Write 1 3]%nat.
 Proof. unfold single_survey. cbn. repeat split; intros w H; inversion H; reflexivity. Qed.
+
+(* CONCURRENT WRITERS ARE DETECTED, for every interleaving: if writers j and o have both
+   surveyed (pre), and both later send a guarded write for the same existing share i
+   (j's first, anything in between and after), then in the final state at least one of the
+   two is surprised -- both can never complete believing they were alone. *)
+Theorem overlapping_publishes_detected :
+  forall ncells n pre mid post j o i,
+    single_survey ncells n (pre ++ Write j i :: mid ++ Write o i :: post) ->
+    j <> o -> (i < ncells)%nat ->
+    surveyed (run ncells n pre) j -> surveyed (run ncells n pre) o ->
+    let s := run ncells n (pre ++ Write j i :: mid ++ Write o i :: post) in
+    surprised s j \/ surprised s o.
+Proof. exact overlapping_publishes_detected_ok. Qed.
+Print Assumptions overlapping_publishes_detected.
+
+(* non-vacuity: a three-writer trace that meets every hypothesis (writers 0 and 2 overlap on cell 1);
+   and without the overlap (writer 1 surveys after writer 0 finished) nobody is surprised *)
+Example ex_overlap_hyps :
+  let pre := [Survey 0; Survey 2; Write 0 0]%nat in
+  single_survey 3 3 (pre ++ Write 0 1 :: [Survey 1; Write 1 2]%nat ++ Write 2 1 :: [Write 2 0]%nat) /\
+  surveyed (run 3 3 pre) 0 /\ surveyed (run 3 3 pre) 2 /\
+  map w_surprised (ws (run 3 3 (pre ++ Write 0 1 :: [Survey 1; Write 1 2]%nat ++ Write 2 1 :: [Write 2 0]%nat))) = [false; false; true].
+Proof.
+  cbn. repeat split; try (intros w H; inversion H; reflexivity);
+    eexists; eexists; split; reflexivity.
+Qed.
+Example ex_sequential_no_surprise :
+  map w_surprised (ws (run 2 2 [Survey 0; Write 0 0; Write 0 1; Survey 1; Write 1 0; Write 1 1]%nat)) = [false; false].
+Proof. reflexivity. Qed.
